@@ -100,6 +100,7 @@ def gen_input(rng, shape, kind):
     if kind == 'spike':
         x = np.zeros(shape); x.ravel()[int(rng.integers(x.size))] = 1e3; return x
     if kind == 'tiny': return 1e-6 * rng.standard_normal(shape)
+    if kind == 'small': return 1e-3 * rng.standard_normal(shape)
     if kind == 'const': return np.full(shape, 2.5)
     raise ValueError(kind)
 
